@@ -188,8 +188,18 @@ func (s *setupWorker) setup(ctx context.Context, m transport.Metadata) error {
 		zap.String("session_username", string(connectPkt.Username)),
 	)
 	L(ctx).Debug("session connected")
-	if metadata, err := s.state.SessionMetadatas().ByClientID(session.ClientID()); err == nil {
-		err := s.state.SessionMetadatas().Delete(metadata.SessionID)
+	// remove every earlier session of this client: lost gossip may have left more than one
+	displaced := map[string]struct{}{}
+	for {
+		metadata, err := s.state.SessionMetadatas().ByClientID(session.ClientID())
+		if err != nil {
+			break
+		}
+		if _, seen := displaced[metadata.SessionID]; seen {
+			break
+		}
+		displaced[metadata.SessionID] = struct{}{}
+		err = s.state.SessionMetadatas().Delete(metadata.SessionID)
 		if err != nil {
 			return err
 		}
